@@ -895,7 +895,7 @@ Definition is_scoped_cls (c : cls) : bool :=
 Definition is_task (o : obj) : bool := match o with OTask _ _ _ _ => true | _ => false end.
 
 (* object trees that the library can build: class tags fit the constructor, the scheduler's
-   active_task is a task (scheduler.pxd types it as AsyncTask) *)
+   active_task is a task (scheduler.pxd types it as AsyncTask); payloads are arbitrary *)
 Fixpoint wf (o : obj) : bool :=
   match o with
   | OFut c _ => is_future_cls c
@@ -904,15 +904,21 @@ Fixpoint wf (o : obj) : bool :=
   | OSched ts bs act =>
     forallb wf ts && forallb wf bs &&
     match act with None => true | Some t => is_task t && wf t end
-  | OScoped c => is_scoped_cls c
-  | OAGen _ | OValue => true
+  | OScoped c _ => is_scoped_cls c
+  | OAGen _ | OValue _ => true
   end.
 
-Lemma repr_future_total : forall c o, is_future_cls c = true \/ is_batch_cls c = true \/ c = CAsyncTask ->
-  repr_future c o <> None.
+Definition fut_like (c : cls) : Prop := is_future_cls c = true \/ is_batch_cls c = true \/ c = CAsyncTask.
+
+(* FutureBase.__repr__, every class that inherits it, every state, every payload: which text *)
+Lemma repr_future_spec : forall c o, fut_like c ->
+  repr_future c o = Some (SFuture match o with Unc => FNot | OkV p => FOk p | OkSelf => FSelf | ErrV p => FErr p end).
 Proof.
-  intros c o H. destruct H as [H|[H|H]]; destruct c; try discriminate; destruct o; simpl; discriminate.
+  intros c o H. destruct H as [H|[H|H]]; destruct c; try discriminate; destruct o; reflexivity.
 Qed.
+
+Lemma repr_future_total : forall c o, fut_like c -> repr_future c o <> None.
+Proof. intros c o H. rewrite (repr_future_spec c o H). discriminate. Qed.
 
 Lemma str_task_total : forall o it g ds, str_task o it g ds <> None.
 Proof.
@@ -924,16 +930,28 @@ Qed.
 Lemma str_batch_total : forall c o its, is_batch_cls c = true -> str_batch c o its <> None.
 Proof. intros c o its H. destruct c; try discriminate; destruct o; simpl; discriminate. Qed.
 
+(* "%": a tuple operand is the argument list *)
+Lemma pct1_spec : forall p,
+  (forall l, p <> PTuple l) -> pct1 p = Some p.
+Proof. intros p H. destruct p; try reflexivity. exfalso. apply (H l). reflexivity. Qed.
+
+Lemma pct1_tuple : forall l,
+  pct1 (PTuple l) = match l with [x] => Some x | _ => None end.
+Proof. intros [|x [|y l]]; reflexivity. Qed.
+
+Lemma pct1_wrapped : forall p, pct1 (PTuple [p]) = Some p.
+Proof. reflexivity. Qed.
+
 Theorem str_total : forall o, wf o = true -> str_obj o <> None.
 Proof.
-  intros o H. destruct o as [c f|f it g ds|c f its|ts bs act|c|st|]; simpl in *.
-  - apply repr_future_total. auto.
+  intros o H. destruct o as [c f|f it g ds|c f its|ts bs act|c p|st|p]; simpl in *.
+  - apply repr_future_total. left. exact H.
   - apply str_task_total.
   - apply andb_true_iff in H. apply str_batch_total. tauto.
   - destruct act as [t|]; [|discriminate].
     apply andb_true_iff in H. destruct H as [_ H]. apply andb_true_iff in H. destruct H as [Ht _].
     destruct t; try discriminate. simpl.
-    generalize (str_task_total o iter gen_open deps). unfold str_obj, str_obj_with.
+    generalize (str_task_total o iter gen_open deps). unfold str_obj, str_obj_with, str_obj_gen.
     destruct (str_task o iter gen_open deps); [discriminate | congruence].
   - destruct c; try discriminate; simpl; discriminate.
   - discriminate.
@@ -942,10 +960,10 @@ Qed.
 
 Theorem repr_total_repr : forall o, wf o = true -> repr_obj o <> None.
 Proof.
-  intros o H. destruct o as [c f|f it g ds|c f its|ts bs act|c|st|];
+  intros o H. destruct o as [c f|f it g ds|c f its|ts bs act|c p|st|p];
     try (apply (str_total _ H)).
-  - apply repr_future_total. auto.
-  - simpl in H. apply andb_true_iff in H. apply repr_future_total. tauto.
+  - apply repr_future_total. right. right. reflexivity.
+  - simpl in H. apply andb_true_iff in H. apply repr_future_total. right. left. tauto.
 Qed.
 
 Definition line_ok (l : Z * dline) : Prop := forall s, snd l = DObj s -> s <> None.
@@ -954,17 +972,23 @@ Lemma Forall_flat_map : forall (A B : Type) (P : B -> Prop) (f : A -> list B) l,
   Forall (fun a => Forall P (f a)) l -> Forall P (flat_map f l).
 Proof. intros A B P f l H. induction H; simpl; [constructor | apply Forall_app; auto]. Qed.
 
-(* every line a dump writes for a nested object is a successfully printed object *)
+Lemma debug_str_ok : forall i s, s <> None -> line_ok (i, debug_str s).
+Proof.
+  intros i s H t Ht. simpl in Ht. unfold debug_str in Ht. destruct s as [x|]; [|congruence].
+  destruct (DEBUG_STR_REPR_MAX_LENGTH <? summary_len x)%Z; [discriminate|]. inversion Ht. discriminate.
+Qed.
+
+(* every line a dump writes for a nested object is a successfully printed object (or its cut text) *)
 Theorem dump_total : forall o i, wf o = true -> Forall line_ok (dump_obj o i).
 Proof.
   fix IH 1. intros o i H.
-  assert (Hstr : line_ok (i, DObj (str_obj o))).
-  { intros s Hs. simpl in Hs. inversion Hs. apply str_total. exact H. }
+  assert (Hstr : line_ok (i, debug_str (str_obj o))).
+  { apply debug_str_ok. apply str_total. exact H. }
   assert (Hlist : forall l k, forallb wf l = true -> Forall line_ok (flat_map (fun d => dump_obj d k) l)).
   { intros l k Hl. apply Forall_flat_map. induction l as [|a l IHl]; [constructor|].
     simpl in Hl. apply andb_true_iff in Hl. destruct Hl as [Ha Hl].
     constructor; [apply IH; exact Ha | apply IHl; exact Hl]. }
-  destruct o as [c f|f it g ds|c f its|ts bs act|c|st|]; simpl.
+  destruct o as [c f|f it g ds|c f its|ts bs act|c p|st|p]; simpl.
   - constructor; [exact Hstr | constructor].
   - destruct (MAX_DUMP_INDENT <? i)%Z.
     + constructor; [|constructor]. intros s Hs. discriminate.
@@ -988,10 +1012,85 @@ Proof.
   - constructor; [exact Hstr | constructor].
 Qed.
 
-(* the three calls of the statement, for every object kind in every state *)
+(* the three calls of the statement, for every object kind in every state, whatever the payloads *)
 Theorem repr_total : forall o, wf o = true ->
   str_obj o <> None /\ repr_obj o <> None /\ Forall line_ok (dump_obj o 0%Z).
 Proof. intros o H. split; [apply str_total | split; [apply repr_total_repr | apply dump_total]]; exact H. Qed.
+
+(* the text shows the payload the object holds -- for every payload, in particular every tuple:
+   str/repr of a future-like object in a computed state, of a finished task (str: the task line,
+   repr: FutureBase.__repr__), of a Value, of a scoped value and of both override contexts *)
+Theorem repr_shows_payload : forall p,
+  (forall c, is_future_cls c = true ->
+     str_obj (OFut c (OkV p)) = Some (SFuture (FOk p)) /\ repr_obj (OFut c (OkV p)) = Some (SFuture (FOk p)) /\
+     str_obj (OFut c (ErrV p)) = Some (SFuture (FErr p)) /\ repr_obj (OFut c (ErrV p)) = Some (SFuture (FErr p))) /\
+  (forall it g ds,
+     str_obj (OTask (OkV p) it g ds) = Some (STask (TOk p) (it - 1)) /\
+     repr_obj (OTask (OkV p) it g ds) = Some (SFuture (FOk p)) /\
+     str_obj (OTask (ErrV p) it g ds) = Some (STask (TErr p) (it - 1)) /\
+     repr_obj (OTask (ErrV p) it g ds) = Some (SFuture (FErr p))) /\
+  (forall c its, is_batch_cls c = true ->
+     repr_obj (OBatch c (OkV p) its) = Some (SFuture (FOk p)) /\
+     repr_obj (OBatch c (ErrV p) its) = Some (SFuture (FErr p))) /\
+  str_obj (OValue p) = Some (SValue p) /\ repr_obj (OValue p) = Some (SValue p) /\
+  str_obj (OScoped CScopedValue p) = Some (SScoped p) /\ repr_obj (OScoped CScopedValue p) = Some (SScoped p) /\
+  repr_obj (OScoped CSVOverride p) = Some (SOverride p) /\
+  repr_obj (OScoped CPropOverride p) = Some (SPropOverride p).
+Proof.
+  intros p. split; [|split; [|split]].
+  - intros c Hc. assert (H : fut_like c) by (left; exact Hc).
+    repeat split; unfold str_obj, repr_obj, str_obj_with, repr_obj_with, repr_obj_gen, str_obj_gen;
+      [exact (repr_future_spec c (OkV p) H) | exact (repr_future_spec c (OkV p) H)
+      | exact (repr_future_spec c (ErrV p) H) | exact (repr_future_spec c (ErrV p) H)].
+  - intros it g ds. repeat split; reflexivity.
+  - intros c its Hc. assert (H : fut_like c) by (right; left; exact Hc).
+    split; [exact (repr_future_spec c (OkV p) H) | exact (repr_future_spec c (ErrV p) H)].
+  - repeat split; reflexivity.
+Qed.
+
+(* the dump line of such an object is its str text, or the cut text when that is longer than the limit: never n/a *)
+Theorem dump_line_shows_payload : forall o i, wf o = true ->
+  exists s, str_obj o = Some s /\
+    hd_error (dump_obj o i) =
+      Some (match o with
+            | OTask _ _ _ _ => if (MAX_DUMP_INDENT <? i)%Z then ((i + 1)%Z, DEllipsis)
+                               else (i, if (DEBUG_STR_REPR_MAX_LENGTH <? summary_len s)%Z then DCut else DObj (Some s))
+            | _ => (i, if (DEBUG_STR_REPR_MAX_LENGTH <? summary_len s)%Z then DCut else DObj (Some s))
+            end).
+Proof.
+  intros o i H. generalize (str_total o H). destruct (str_obj o) as [s|] eqn:E; [|congruence].
+  intros _. exists s. split; [reflexivity|].
+  destruct o; cbn [dump_obj]; try (destruct (MAX_DUMP_INDENT <? i)%Z; [reflexivity|]);
+    cbn [hd_error]; rewrite E; reflexivity.
+Qed.
+
+(* "fmt % operand" with one specifier and the payload as the bare operand -- the form
+   Value.__repr__ had as found, and the form any text takes that is 'tidied' from
+   concatenation into "...%r" % value: right exactly for the non-tuples *)
+Theorem pct_bare_operand : forall p,
+  ((forall l, p <> PTuple l) -> pct1 p = Some p) /\
+  (forall l, p = PTuple l -> pct1 p = match l with [x] => Some x | _ => None end) /\
+  pct1 (PTuple [p]) = Some p.
+Proof.
+  intros p. split; [apply pct1_spec | split; [|reflexivity]].
+  intros l ->. apply pct1_tuple.
+Qed.
+
+(* the code as found (generator.py 87: "<Value: %r>" % self.value): repr/str of a Value holding a
+   tuple raise unless the tuple has one element, and then print the element, not the tuple *)
+Theorem value_repr_as_found : forall l,
+  str_obj_gen AGEN_REPR_ATTR VALUE_OPERAND_AS_FOUND (OValue (PTuple l)) =
+    match l with [x] => Some (SValue x) | _ => None end /\
+  repr_obj_gen AGEN_REPR_ATTR VALUE_OPERAND_AS_FOUND (OValue (PTuple l)) =
+    match l with [x] => Some (SValue x) | _ => None end.
+Proof. intros [|x [|y l]]; split; reflexivity. Qed.
+
+Theorem value_repr_as_found_agrees_on_non_tuples : forall p, (forall l, p <> PTuple l) ->
+  str_obj_gen AGEN_REPR_ATTR VALUE_OPERAND_AS_FOUND (OValue p) = str_obj (OValue p).
+Proof.
+  intros p H. unfold str_obj, str_obj_with, str_obj_gen, VALUE_OPERAND_AS_FOUND, VALUE_OPERAND. simpl.
+  rewrite (pct1_spec p H). reflexivity.
+Qed.
 
 (* the code as found (generator.py 176 read self.stopped): str/repr of an async generator object
    raise in every state *)
@@ -1000,6 +1099,13 @@ Theorem asyncgen_repr_as_found_raises : forall st,
 Proof. intros st. split; reflexivity. Qed.
 
 Example repr_total_example :
-  wf (OSched [OTask Unc 2 true [OFut CBatchItem Unc; OFut CConstFuture OkV]] [OBatch CBatch Unc [OFut CBatchItem Unc]]
-             (Some (OTask Unc 1 true []))) = true.
+  wf (OSched [OTask Unc 2 true [OFut CBatchItem Unc; OFut CConstFuture (OkV (PTuple [PInt 1; PStr "%s"]))]]
+             [OBatch CBatch Unc [OFut CBatchItem Unc]]
+             (Some (OTask (OkV (PTuple [])) 1 true []))) = true.
 Proof. reflexivity. Qed.
+
+Example value_repr_as_found_example :
+  repr_obj_gen AGEN_REPR_ATTR VALUE_OPERAND_AS_FOUND (OValue (PTuple [PInt 1; PInt 2])) = None /\
+  repr_obj_gen AGEN_REPR_ATTR VALUE_OPERAND_AS_FOUND (OValue (PTuple [PInt 7])) = Some (SValue (PInt 7)) /\
+  repr_obj (OValue (PTuple [PInt 7])) = Some (SValue (PTuple [PInt 7])).
+Proof. repeat split; reflexivity. Qed.
